@@ -2,7 +2,8 @@ CONSTANTS HU = 2
   Bodies = {0, 1, 3}
   MaxMsgs = 3
   Trailer = 3
+  WithTimeout = TRUE
 INIT Init
 NEXT Next
-INVARIANTS ResultsAreExpected PrefixAlways
+INVARIANTS ResultsAreExpected PrefixAlways TimeoutDeliversPrefix
 CHECK_DEADLOCK FALSE
